@@ -31,6 +31,57 @@ type TargetCase struct {
 	// Text: the kept hunks are rendered and read back first (a hand-edited
 	// patch is a text file).
 	Text bool `json:"text,omitempty"`
+	// Widen: every list hunk gets a second context line on each side, taken
+	// from the document the diff was made for (the element two places away,
+	// or the [ / ] marker where the array ends there), as someone extending
+	// a patch by hand would.
+	Widen bool `json:"widen,omitempty"`
+}
+
+// widenContext returns the kept hunks with two-line context.
+func widenContext(a val.V, hs []ref.Hunk, keep []int) []ref.Hunk {
+	wide := make([]ref.Hunk, len(hs))
+	cur := val.Clone(a)
+	for k, h := range hs {
+		wide[k] = h
+		if n := len(h.Path); n > 0 && h.Path[n-1].Kind == ref.Index && !h.Merge {
+			if at, present, err := locate(cur, h.Path[:n-1]); err == nil && present {
+				if l, ok := at.([]val.V); ok {
+					i := h.Path[n-1].Index
+					w := h
+					if len(h.Before) == 1 && !val.IsVoid(h.Before[0]) && i >= 1 && i-1 < len(l) {
+						if i-2 >= 0 {
+							w.Before = []val.V{val.Clone(l[i-2]), h.Before[0]}
+						} else {
+							w.Before = []val.V{val.Void, h.Before[0]}
+						}
+					}
+					j := i + len(h.Remove)
+					if len(h.After) == 1 && !val.IsVoid(h.After[0]) && j < len(l) {
+						if j+1 < len(l) {
+							w.After = []val.V{h.After[0], val.Clone(l[j+1])}
+						} else {
+							w.After = []val.V{h.After[0], val.Void}
+						}
+					}
+					wide[k] = w
+				}
+			}
+		}
+		if nxt, err := ref.Apply(cur, h); err == nil {
+			cur = nxt
+		}
+	}
+	if keep == nil {
+		return wide
+	}
+	var out []ref.Hunk
+	for _, k := range keep {
+		if k >= 0 && k < len(wide) {
+			out = append(out, wide[k])
+		}
+	}
+	return out
 }
 
 func subDiff(d jd.Diff, hs []ref.Hunk, keep []int) (jd.Diff, []ref.Hunk) {
@@ -95,6 +146,14 @@ func checkC03(c TargetCase, r *rec.Rec) error {
 		return rec.Violated("diff holds an unreadable node: %v", err)
 	}
 	sd, sh := subDiff(d, hs, c.Keep)
+	if c.Widen {
+		av, err := val.Parse(c.A)
+		if err != nil {
+			return fmt.Errorf("bad case: %v", err)
+		}
+		sh = widenContext(av, hs, c.Keep)
+		sd = jdx.FromHunks(sh)
+	}
 
 	// Reference verdict, hunk by hunk.
 	cur := val.Clone(cv)
@@ -114,6 +173,9 @@ func checkC03(c TargetCase, r *rec.Rec) error {
 	}
 
 	cls := []string{"how=" + c.How}
+	if c.Widen {
+		cls = append(cls, "two-line-context")
+	}
 	if c.Text {
 		cls = append(cls, "through-text")
 		rendered := sd.Render()
@@ -368,6 +430,7 @@ func drawTarget(t *rapid.T, av, bv val.V, hs []ref.Hunk, p gen.Profile) (val.V, 
 func genC03(t *rapid.T) TargetCase {
 	c := genC03base(t)
 	c.Text = gen.Chance(t, "throughText", 50)
+	c.Widen = gen.Chance(t, "widen", 12)
 	return c
 }
 
